@@ -1,5 +1,6 @@
 import Rivaas.Proto
 import Rivaas.Spec.Version
+import Rivaas.Spec.VersionCfg
 /-
 Driver for C13. Case line:
   <id> <nOpts> { P <pattern> | H <name> | Q <param> | A <pattern> | C <n> }*
@@ -62,6 +63,26 @@ def pInput : P (Cfg × List Route × Req) := do
           enforceSunset := enf, now := now, lifecycles := lcs },
         routes, { method := m, path := p, rawQuery := q, lib := lib })
 
+def pEv : P ObsEv := do
+  let k ← tok
+  if k == "D" then (do let v ← str; let m ← str; pure (.detected v m))
+  else if k == "M" then pure .missing
+  else if k == "I" then ObsEv.invalid <$> str
+  else if k == "U" then (do let v ← str; let r ← str; pure (.deprecatedUse v r))
+  else failure
+
+/-- the observer callbacks, when the case carries them (`V <n> …` after the observation) -/
+def pEvents : P (Option (List ObsEv)) := do
+  match (← peek) with
+  | some "V" => (do lit "V"; let l ← list pEv; pure (some l))
+  | _ => pure none
+
+def encEv : ObsEv → String
+  | .detected v m => "D " ++ encStr v ++ " " ++ encStr m
+  | .missing => "M"
+  | .invalid v => "I " ++ encStr v
+  | .deprecatedUse v r => "U " ++ encStr v ++ " " ++ encStr r
+
 /-- `none` = the implementation panicked -/
 def pObs : P (Option Obs) := do
   let k ← tok
@@ -90,19 +111,91 @@ def encObs (o : Obs) : String :=
     | some (t, r) => "1 " ++ encOpt t ++ " " ++ encStr r
   s!"R {o.status} {h} {encOpt o.version} {encOpt o.hXAPIVersion} {encOpt o.hDeprecation} {encOpt o.hSunset} {encOpt o.hLink} {encOpt o.hWarning}"
 
+/-! ### configuration cases:
+  <id> O <n> { P <s> | H <s> | Q <s> | A <s> | C <n> | CN | D <s> | V <n> <s>* | RH | W | SE | OB | CK }*
+    => P | E <kind> [<index>] | K <n> <method>* <default> <n> <valid>* <sendVersionHeader> <warning299> <enforceSunset> <observer> -/
+
+def pCfgOpt : P Opt := do
+  let k ← tok
+  if k == "P" then (fun s => Opt.det (.path s)) <$> str
+  else if k == "H" then (fun s => Opt.det (.header s)) <$> str
+  else if k == "Q" then (fun s => Opt.det (.query s)) <$> str
+  else if k == "A" then (fun s => Opt.det (.accept s)) <$> str
+  else if k == "C" then (fun n => Opt.det (.custom n)) <$> nat
+  else if k == "CN" then pure .customNil
+  else if k == "D" then Opt.dflt <$> str
+  else if k == "V" then Opt.valid <$> list str
+  else if k == "RH" then pure .responseHeaders
+  else if k == "W" then pure .warning299
+  else if k == "SE" then pure .sunsetEnforcement
+  else if k == "OB" then pure .observer
+  else if k == "CK" then pure .clock
+  else failure
+
+def errNames : List (String × CfgErr) :=
+  [("emptyPathPattern", .emptyPathPattern), ("emptyHeaderName", .emptyHeaderName), ("emptyQueryParam", .emptyQueryParam),
+   ("emptyAcceptPattern", .emptyAcceptPattern), ("missingPlaceholder", .missingPlaceholder), ("nilCustom", .nilCustom),
+   ("emptyDefault", .emptyDefault), ("noValidVersions", .noValidVersions), ("defaultRequired", .defaultRequired)]
+
+/-- `none` = `version.New` panicked or returned an error that is none of the sentinels -/
+def pCfgObs : P (Option CfgObs) := do
+  let k ← tok
+  if k == "P" then pure none
+  else if k == "E" then do
+    let e ← tok
+    if e == "emptyVersionEntry" then (fun i => some (.rejected (.emptyVersionEntry i))) <$> nat
+    else match errNames.lookup e with
+      | some x => pure (some (.rejected x))
+      | none => pure none
+  else if k == "K" then do
+    let ms ← list str
+    let d ← str
+    let vs ← list str
+    let a ← bool
+    let b ← bool
+    let c ← bool
+    let o ← bool
+    pure (some (.accepted ms d vs a b c o))
+  else failure
+
+def encBool (b : Bool) : String := if b then "1" else "0"
+def encStrs (l : List Bytes) : String := s!"{l.length}" ++ String.join (l.map fun s => " " ++ encStr s)
+
+def encCfgObs : CfgObs → String
+  | .rejected (.emptyVersionEntry i) => s!"E emptyVersionEntry {i}"
+  | .rejected e => "E " ++ ((errNames.find? (fun p => p.2 == e)).map (·.1)).getD "?"
+  | .accepted ms d vs a b c o =>
+    s!"K {encStrs ms} {encStr d} {encStrs vs} {encBool a} {encBool b} {encBool c} {encBool o}"
+
+def stepO (id : String) (inp obs : List String) : String :=
+  match runP (do lit "O"; list pCfgOpt) inp, runP pCfgObs obs with
+  | some opts, some o =>
+    let m := observeCfg opts
+    let sOK := match o with
+      | some io => Spec.cfgSpecOK opts io
+      | none => false
+    verdict id (o == some m) sOK "-" (encCfgObs m)
+  | _, _ => s!"{id} bad-case"
+
 def step (line : String) : String :=
   match splitCase line with
   | none => "? bad-line"
   | some (id, inp, obs) =>
-    match runP pInput inp, runP pObs obs with
-    | some (cfg, routes, req), some o =>
+    if inp.head? == some "O" then stepO id inp obs else
+    match runP pInput inp, runP (do let o ← pObs; let e ← pEvents; pure (o, e)) obs with
+    | some (cfg, routes, req), some (o, evs) =>
       let m := serve cfg routes req
       let agrees := Spec.libAgrees cfg req
-      let mi := (o == some m) && agrees
+      let mev := serveEvents cfg routes req
+      let evOK := match evs with
+        | some l => l == mev
+        | none => true
+      let mi := (o == some m) && agrees && evOK
       let sOK := match o with
         | some io => Spec.specOK cfg routes req io
         | none => false
-      verdict id mi sOK "-" (encObs m ++ (if agrees then "" else " lib-disagrees-with-standard-parser"))
+      verdict id mi sOK "-" (encObs m ++ (if agrees then "" else " lib-disagrees-with-standard-parser") ++
+        (if evOK then "" else s!" observer-callbacks-differ: V {mev.length}" ++ String.join (mev.map fun e => " " ++ encEv e)))
     | _, _ => s!"{id} bad-case"
 
 end Rivaas.DriverC13
